@@ -20,7 +20,10 @@ var c08Kinds = []int{kH264, kH265, kH265DONL, kVP8, kVP9, kVP9Flex, kAV1Dep, kOp
 
 func init() {
 	register(&Check{
-		ID: "C08", Level: "exploration", Configs: []string{"clean"},
+		ID: "C08",
+		Tenants: func(c *core.Ctx, i int) tenant {
+			return tenantPayloader(c, []int{kH264, kH265, kH265DONL, kVP8, kVP9, kVP9Flex, kAV1Dep, kG711, kG722, kOpus}[c.T.Intn(10)])
+		}, Level: "exploration", Configs: []string{"clean"},
 		Run:         runC08,
 		QuickRuns:   300_000,
 		ThoroughSec: 600,
